@@ -5,6 +5,7 @@
 #include <vata/explicit_tree_aut.hh>
 #include "universe.h"
 #include "decode.h"
+#include "decode_free.h"
 using namespace VATA;
 typedef U::SymAut<NS> SA;
 static bool drawn(const U::Rule& r)
@@ -24,7 +25,10 @@ extern "C" void harness(void)
 #endif
   ExplicitTreeAut a; A.build(a);
   ExplicitTreeAut w = a.GetCandidateTree();
-  SA W; CHECK((U::decode<NS>(w, W)), 1);
+  // The witness automaton is a new object whose state numbers are the library's choice (no translation map is returned):
+  // it is decoded independently of them (decode_free.h: slots in order of first occurrence; at most NS distinct states, only
+  // universe symbols with their rank).  Only its LANGUAGE enters the property.
+  SA W; U::Slots<NS> slots; CHECK((U::decodeFree<NS>(w, W, slots)), 1);
 
   // every tree accepted by the witness automaton is accepted by A (independent macro-state inclusion oracle)
   { SA Ao = A;
@@ -38,11 +42,17 @@ extern "C" void harness(void)
     emptyA = emptyA || (A.pres[0] && !A.fin[0]);   // seeded wrong oracle
 #endif
     CHECK(emptyW == emptyA, 3); }
-  // it is a sub-automaton: no invented rules or final states (how the sub-language property comes about)
-  for (unsigned i = 0; i < W.nrules; ++i) CHECK(!W.pres[i] || A.pres[i], 4);
-  for (unsigned s = 0; s < NS; ++s) CHECK(!W.fin[s] || A.fin[s], 5);
-  // a genuine witness: whatever is left is reachable from a final state of W; if L(A) is non-empty some final state of W is productive in W
-  { unsigned reachW = U::reachableTD(W); for (unsigned i = 0; i < W.nrules; ++i) CHECK(!W.pres[i] || ((reachW >> U::Univ<NS>::rule(i).parent) & 1), 6); }
+#ifdef STRICT_IMPL   // never defined.  The property speaks about the language of the returned automaton only; the following
+  // describes HOW the current implementation gets there (it returns a part of A under A's own state numbers and drops what
+  // the final states do not reach).  Another valid witness - a different choice of rules, a freshly numbered automaton
+  // for one accepted tree, a harmless leftover rule - satisfies the property and fails these.
+  { SA Ws; CHECK((U::decode<NS>(w, Ws)), 1);                          // decoded under A's numbers
+    // it is a sub-automaton: no invented rules or final states (how the sub-language property comes about)
+    for (unsigned i = 0; i < Ws.nrules; ++i) CHECK(!Ws.pres[i] || A.pres[i], 4);
+    for (unsigned s = 0; s < NS; ++s) CHECK(!Ws.fin[s] || A.fin[s], 5);
+    // whatever is left is reachable from a final state of W
+    unsigned reachW = U::reachableTD(Ws); for (unsigned i = 0; i < Ws.nrules; ++i) CHECK(!Ws.pres[i] || ((reachW >> U::Univ<NS>::rule(i).parent) & 1), 6); }
+#endif
   // operand unchanged
   { SA A2; CHECK((U::decode<NS>(a, A2)), 20); CHECK((U::sameAut<NS>(A, A2)), 21); }
 #ifdef VS_OBSERVE
